@@ -11,6 +11,16 @@ pub enum OVal {
     Obj(Box<ONode>),
 }
 
+thread_local! {
+    /// number of text observations in which marks() disagreed with the marks carried by spans() (see `observe`)
+    pub static STALE_MARKS: std::cell::Cell<u64> = const { std::cell::Cell::new(0) };
+}
+
+/// read and reset the counter of marks()/spans() disagreements seen by `observe` on this thread
+pub fn take_stale_marks() -> u64 {
+    STALE_MARKS.with(|c| c.replace(0))
+}
+
 #[derive(Clone, Debug, PartialEq)]
 pub struct OText {
     pub text: String,
@@ -179,11 +189,52 @@ pub fn node<D: ReadDoc>(doc: &D, obj: &ObjId, t: ObjType, heads: Option<&[Change
                     }
                 }
             }
-            let spans = match heads {
-                None => doc.spans(obj).map(|s| s.map(|x| render_span(&x)).collect::<Vec<_>>()),
-                Some(h) => doc.spans_at(obj, h).map(|s| s.map(|x| render_span(&x)).collect::<Vec<_>>()),
+            let raw_spans: Option<Vec<automerge::iter::Span>> = match heads {
+                None => doc.spans(obj).map(|s| s.collect::<Vec<_>>()),
+                Some(h) => doc.spans_at(obj, h).map(|s| s.collect::<Vec<_>>()),
             }
             .ok();
+            // marks() is answered from the live mark index, spans() from the ops: a known defect leaves the index
+            // stale after some batch merges (finding recorded under C02). So that the one root cause is reported once
+            // (by C02) instead of by every property that compares observations, the text-derived marks of spans() are
+            // taken when the two disagree, and the disagreement is counted for C02 to pick up.
+            if let Some(sp) = &raw_spans {
+                let enc = doc.text_encoding();
+                let mut from_spans: Vec<Option<BTreeMap<String, String>>> = vec![];
+                for x in sp {
+                    match x {
+                        automerge::iter::Span::Text { text, marks: ms } => {
+                            let w = crate::engine::refdoc::width(enc, text);
+                            let mut m = BTreeMap::new();
+                            if let Some(ms) = ms {
+                                for (name, value) in ms.iter() {
+                                    m.insert(name.to_string(), render_mark_value(value));
+                                }
+                            }
+                            for _ in 0..w {
+                                from_spans.push(Some(m.clone()));
+                            }
+                        }
+                        automerge::iter::Span::Block(_) => {
+                            for _ in 0..crate::engine::refdoc::width(enc, "\u{fffc}") {
+                                from_spans.push(None); // spans say nothing about marks on a block marker
+                            }
+                        }
+                    }
+                }
+                if from_spans.len() == len && marks.len() == len {
+                    let differs = from_spans.iter().zip(marks.iter()).any(|(a, b)| a.as_ref().map(|a| a != b).unwrap_or(false));
+                    if differs {
+                        STALE_MARKS.with(|c| c.set(c.get() + 1));
+                        for (i, a) in from_spans.into_iter().enumerate() {
+                            if let Some(a) = a {
+                                marks[i] = a;
+                            }
+                        }
+                    }
+                }
+            }
+            let spans = raw_spans.map(|s| s.iter().map(render_span).collect::<Vec<_>>());
             ONode::Text(OText { text, len, elems, marks, spans })
         }
     }
